@@ -6,6 +6,7 @@ package main
 
 import (
 	"encoding/json"
+	"fmt"
 	"io"
 	"log"
 	"os"
@@ -192,6 +193,17 @@ func c16(c *Ctx) {
 		case kind < 8: // direct calls with the caller's slice and env map
 			randEnv()
 			xs := mk(1+r.Intn(3), r.Intn(2))
+			if r.Chance(1, 3) {
+				// nothing to expand at all (a fast path must not hand the caller's own array to anything that writes)
+				for i := range xs {
+					xs[i] = []string{"lit", "a b", "z", "-o", "build"}[r.Intn(5)]
+				}
+			}
+			// verbose mode makes the helpers log the command line; it must not change what they do to their inputs
+			verbose := r.Bool()
+			if verbose {
+				os.Setenv("MAGEFILE_VERBOSE", "1")
+			}
 			snap := snapshot(xs)
 			var env map[string]string
 			var envSnap map[string]string
@@ -226,6 +238,7 @@ func c16(c *Ctx) {
 				o = sb.String()
 			}
 			shown, _ := sw.restore()
+			os.Setenv("MAGEFILE_VERBOSE", "0")
 			if fn == "RunV" {
 				o = string(shown)
 			}
@@ -247,7 +260,7 @@ func c16(c *Ctx) {
 			if fn != "Run" && fn != "RunWith" {
 				impl["argv"] = splitEcho(o)
 			}
-			c.Emit(J{"op": "c16.direct", "fn": fn, "xs": append([]string{}, snap[:len(xs)]...), "env": envNow(), "envMap": em}, impl, "direct", "fn="+fn)
+			c.Emit(J{"op": "c16.direct", "fn": fn, "xs": append([]string{}, snap[:len(xs)]...), "env": envNow(), "envMap": em}, impl, "direct", "fn="+fn, fmt.Sprintf("verbose=%v", verbose))
 		default: // concurrent calls of one OutCmd closure (spare capacity), fixed environment
 			randEnv()
 			baked := mk(1+r.Intn(2), 1+r.Intn(3))
